@@ -53,9 +53,8 @@ func openLinzDB(dir string) *NoKV.DB {
 func genLinz(r *rand.Rand) linzDesc {
 	var d linzDesc
 	d.Throttle = r.Intn(3) == 0
-	// the brute-force checker runs inside Coq (vm_compute): keep histories at 12 operations
 	nthreads := 3 + r.Intn(2)
-	nops := 12 / nthreads
+	nops := 4 + r.Intn(3)
 	valc := 0
 	for t := 0; t < nthreads; t++ {
 		var p []linzOp
@@ -188,7 +187,7 @@ func execLinz(c *corr.Ctx, db *NoKV.DB, d linzDesc) corr.Case {
 func runLinz(c *corr.Ctx) error {
 	c.Meta("run_module", "RunLinz")
 	c.Meta("exhaustive", false)
-	c.Meta("rule", "3 goroutines x 4 or 4 goroutines x 3 operations (Set with unique values, Del, Get) on 2 fresh keys per history against one real DB "+
+	c.Meta("rule", "3-4 goroutines x 4-6 operations (Set with unique values, Del, Get) on 2 fresh keys per history against one real DB "+
 		"(commit worker batching on, WriteHotKeyLimit=6 so that repeated writes are rejected, 5000-byte values rejected by MaxBatchSize, "+
 		"a fifth goroutine toggling the L0 write throttle in a third of the histories); call/return stamped by a global atomic counter; "+
 		"the complete history must satisfy lin_check. non-trivial = at least one write succeeded; distinct by Gallina term")
